@@ -195,7 +195,7 @@ func genC07(r *rand.Rand, tier string, idx int) *World {
 	}
 	w := genHistory(r, tier, o)
 	w.Extra["c02prop"] = "C07"
-	w.Extra["failHow"] = pick(r, "cli", "cli", "storm", "cli-paused")
+	w.Extra["failHow"] = pick(r, "cli", "cli-midsync", "cli-midsync", "storm", "cli-paused")
 	w.Cfg.EndCanary = "fail"
 	w.Cfg.ChaosSteps = pick(r, 20, 40, 80)
 	w.Cfg.TargetRollback = idx%4 != 0
@@ -249,6 +249,24 @@ func bodyC07(s *Sim) {
 					}
 				}
 			}
+		case "cli-midsync":
+			// kubectl-eds canary fail lands between the reads and the status write of a sync
+			// of the canary replica set
+			cr := s.Store.GetERS(def.NS, e.Status.Canary.ReplicaSet)
+			if cr != nil {
+				s.Advance(s.maxFrequency() + time.Second)
+				s.StartReconcile(CtrlERS, types.NamespacedName{Namespace: cr.Namespace, Name: cr.Name})
+				for i := 0; i < 2+s.rngEnv.IntN(4); i++ {
+					synctestWait()
+					p := s.canonicalPending()
+					if len(p) == 0 {
+						break
+					}
+					s.grant(p[0], "")
+				}
+			}
+			s.StartCLI("canary-fail", key)
+			s.Drain()
 		default:
 			s.RunCLI("canary-fail", key)
 		}
